@@ -969,6 +969,16 @@ impl Sim {
                     }
                 }
             }
+            Op::SleepUntilMultiple { period_us, offset_us } => {
+                if *period_us > 0 {
+                    let now = self.now_us();
+                    let phase = now % *period_us;
+                    let wait = if phase <= *offset_us { *offset_us - phase } else { *period_us - phase + *offset_us };
+                    if wait > 0 {
+                        tokio::time::sleep(Duration::from_micros(wait)).await;
+                    }
+                }
+            }
             Op::StreamCloseReq { slot } => self.stream_close_req(client, *slot),
             Op::StreamDrop { slot } => self.stream_drop(client, *slot),
             Op::EndpointFaultsOff => {
